@@ -1,6 +1,6 @@
 (* C08 - basic lemmas: equality tests, function update, subscription tables, snapshot list, and the case analysis
    of one step (cstep_cases / handle_cases) on which all invariants are built. *)
-From Coq Require Import List Arith Bool Lia.
+From Coq Require Import List Arith Bool Lia Btauto.
 Import ListNotations.
 Require Import FV.C08.Model.
 
@@ -75,6 +75,72 @@ Proof.
     congruence.
 Qed.
 
+(* ---- the table: membership through the set objects *)
+Definition memt (c : conn) (sc : scope) (t : list sentry) : bool :=
+  existsb (fun e => scope_eqb sc (e_key e) && memc c (e_mem e)) t.
+
+Lemma mems_app : forall c sc l1 l2, mems c sc (l1 ++ l2) = mems c sc l1 || mems c sc l2.
+Proof. induction l1 as [| [x y] l1]; simpl; intros; auto. rewrite IHl1, orb_assoc; auto. Qed.
+Lemma mems_map_key : forall c sc key l, mems c sc (map (fun x => (x, key)) l) = scope_eqb sc key && memc c l.
+Proof.
+  induction l; simpl; [rewrite andb_false_r; auto |]. rewrite IHl.
+  destruct (scope_eqb sc key); simpl; [rewrite andb_true_r; auto | rewrite andb_false_r; auto].
+Qed.
+Lemma mems_subs : forall s c sc, mems c sc (subs s) = memt c sc (tbl s).
+Proof.
+  intros. unfold subs, memt. induction (tbl s) as [| e t IH]; simpl; auto.
+  rewrite mems_app, mems_map_key, IH; auto.
+Qed.
+Lemma listens_memt : forall s c p,
+  listens s c p = memt c (SP (fst p) (snd p)) (tbl s) || memt c (SM (fst p)) (tbl s) || memc c (actv s).
+Proof. intros. unfold listens. rewrite !mems_subs; auto. Qed.
+Lemma memt_true : forall c sc t, memt c sc t = true <-> exists e, In e t /\ e_key e = sc /\ In c (e_mem e).
+Proof.
+  intros. unfold memt. rewrite existsb_exists. split; intros [e [I H]]; exists e; split; auto.
+  - apply andb_true_iff in H. destruct H as [H1 H2]. apply scope_eqb_eq in H1. apply memc_In in H2. auto.
+  - destruct H as [H1 H2]. apply andb_true_iff. split; [apply scope_eqb_eq; auto | apply memc_In; auto].
+Qed.
+
+(* set.add on the set object id *)
+Lemma memt_add : forall c id c' sc t,
+  memt c' sc (map (mem_add c id) t) =
+  memt c' sc t || (Nat.eqb c' c && existsb (fun e => Nat.eqb (e_id e) id && scope_eqb sc (e_key e)) t).
+Proof.
+  intros. unfold memt. induction t as [| e t IH]; simpl; [rewrite andb_false_r; auto |]. rewrite IH. clear IH.
+  unfold mem_add. destruct (Nat.eqb (e_id e) id); simpl; [| btauto].
+  destruct (Nat.eqb c' c); simpl; btauto.
+Qed.
+(* set.discard on the set object id *)
+Lemma memt_del_other : forall c id c' sc t, c' <> c -> memt c' sc (map (mem_del c id) t) = memt c' sc t.
+Proof.
+  intros. unfold memt. induction t as [| e t IH]; simpl; auto. rewrite IH. f_equal.
+  unfold mem_del. destruct (Nat.eqb (e_id e) id); simpl; auto. rewrite memc_remc_other; auto.
+Qed.
+Lemma memt_del_le : forall c id c' sc t, memt c' sc (map (mem_del c id) t) = true -> memt c' sc t = true.
+Proof.
+  intros c id c' sc t. unfold memt. induction t as [| e t IH]; simpl; auto. rewrite !orb_true_iff.
+  intros [H | H]; [left | right; auto]. unfold mem_del in H. destruct (Nat.eqb (e_id e) id); simpl in *; auto.
+  apply andb_true_iff in H. destruct H as [H1 H2]. rewrite H1; simpl. apply memc_In in H2. apply In_remc in H2.
+  apply memc_In; tauto.
+Qed.
+Lemma memt_filter_le : forall f c sc t, memt c sc (filter f t) = true -> memt c sc t = true.
+Proof.
+  intros f c sc t H. apply memt_true in H. destruct H as [e [I H]]. apply filter_In in I. apply memt_true. exists e; tauto.
+Qed.
+(* unsubscribe *)
+Lemma memt_unsub : forall c sc c' sc' t,
+  memt c' sc' (map (mem_unsub c sc) t) = memt c' sc' t && negb (Nat.eqb c' c && key_hits sc sc').
+Proof.
+  intros. unfold memt. induction t as [| e t IH]; simpl; auto. rewrite IH. clear IH.
+  unfold mem_unsub. destruct (scope_eqb sc' (e_key e)) eqn:K; simpl.
+  - apply scope_eqb_eq in K. subst sc'. destruct (key_hits sc (e_key e)); simpl.
+    + destruct (Nat.eqb c' c) eqn:E; simpl.
+      * apply Nat.eqb_eq in E. subst c'. rewrite scope_eqb_refl, memc_remc_self; simpl. rewrite !andb_false_r; auto.
+      * rewrite scope_eqb_refl; simpl. apply Nat.eqb_neq in E. rewrite memc_remc_other by auto. rewrite !andb_true_r; auto.
+    + rewrite scope_eqb_refl; simpl. rewrite !andb_false_r; simpl. rewrite !andb_true_r; auto.
+  - destruct (key_hits sc (e_key e)); simpl; rewrite K; simpl; auto.
+Qed.
+
 (* ---- listeners *)
 Lemma listeners_spec : forall s p c, In c (listeners s p) <-> listens s c p = true.
 Proof.
@@ -96,27 +162,129 @@ Proof.
   intros m q [a b]; simpl. rewrite andb_true_iff, !Nat.eqb_eq. split; [intros [-> ->]; auto | intros H; inversion H; auto].
 Qed.
 
-(* registration: exactly the covered parameters of that connection start to listen *)
-Lemma listens_register : forall s c sc c' p,
-  listens (register s c sc) c' p = listens s c' p || (Nat.eqb c' c && covers sc p).
+(* listens only looks at the tables *)
+Lemma listens_ext : forall s s' c p, actv s' = actv s -> tbl s' = tbl s -> listens s' c p = listens s c p.
+Proof. intros. rewrite !listens_memt. rewrite H, H0; reflexivity. Qed.
+Lemma subs_ext : forall s s', tbl s' = tbl s -> subs s' = subs s.
+Proof. intros. unfold subs. rewrite H; reflexivity. Qed.
+Lemma listeners_ext : forall s s' p, actv s' = actv s -> tbl s' = tbl s -> listeners s' p = listeners s p.
+Proof. intros. unfold listeners. rewrite H, (subs_ext s s') by auto; reflexivity. Qed.
+
+(* activate of the whole node *)
+Lemma listens_register_g : forall s c c' p, listens (register_g s c) c' p = listens s c' p || Nat.eqb c' c.
 Proof.
-  intros. unfold listens, register. destruct sc as [| m | m q]; simpl.
-  - rewrite andb_true_r. destruct (Nat.eqb c' c); simpl; rewrite ?orb_true_r, ?orb_false_r; auto.
-  - destruct (Nat.eqb c' c) eqn:E; simpl; rewrite ?orb_false_r; auto.
-    rewrite (Nat.eqb_sym m (fst p)). destruct (Nat.eqb (fst p) m) eqn:F; simpl; rewrite ?orb_false_r; auto.
-    rewrite !orb_true_r; auto.
-  - destruct (Nat.eqb c' c) eqn:E; simpl; rewrite ?orb_false_r; auto.
-    rewrite (Nat.eqb_sym m (fst p)), (Nat.eqb_sym q (snd p)).
-    destruct (Nat.eqb (fst p) m && Nat.eqb (snd p) q) eqn:F; simpl; rewrite ?orb_false_r, ?orb_true_r; auto.
+  intros. rewrite !listens_memt. simpl. destruct (Nat.eqb c' c); simpl; rewrite ?orb_true_r, ?orb_false_r; auto.
+Qed.
+
+(* subscribe, first half: the table gains at most an empty set *)
+Lemma lookup_cases (s : state) (sc : scope) (R : state * nat -> Prop) :
+  (forall id, find_key sc (tbl s) = Some id -> R (s, id)) ->
+  (find_key sc (tbl s) = None ->
+   R (set_nsets (set_tbl s (tbl s ++ [{| e_id := nsets s; e_key := sc; e_mem := [] |}])) (S (nsets s)), nsets s)) ->
+  R (lookup s sc).
+Proof. intros H1 H2. unfold lookup. destruct (find_key sc (tbl s)) eqn:E; auto. Qed.
+Lemma memt_app_empty : forall c sc t e, e_mem e = [] -> memt c sc (t ++ [e]) = memt c sc t.
+Proof. intros. unfold memt. rewrite existsb_app; simpl. rewrite H; simpl. rewrite andb_false_r; simpl. apply orb_false_r. Qed.
+Lemma listens_lookup : forall s sc c p, listens (fst (lookup s sc)) c p = listens s c p.
+Proof.
+  intros. apply (lookup_cases s sc (fun r => listens (fst r) c p = listens s c p)); simpl; intros; auto.
+  rewrite !listens_memt. simpl. rewrite !memt_app_empty by auto. auto.
+Qed.
+Lemma find_key_In : forall sc t id, find_key sc t = Some id -> exists e, In e t /\ e_id e = id /\ e_key e = sc.
+Proof.
+  intros sc t id. unfold find_key. destruct (find (fun e => scope_eqb (e_key e) sc) t) as [e |] eqn:F; [| discriminate].
+  intros H; inversion H; subst. apply find_some in F. destruct F as [I K]. apply scope_eqb_eq in K. exists e; auto.
+Qed.
+Lemma find_key_None : forall sc t, find_key sc t = None -> forall e, In e t -> e_key e <> sc.
+Proof.
+  intros sc t. unfold find_key. destruct (find (fun e => scope_eqb (e_key e) sc) t) as [e |] eqn:F; [discriminate |].
+  intros _ e I K. apply (find_none _ _ F) in I. apply scope_eqb_eq in K. congruence.
+Qed.
+(* the set object that was returned is bound to the event *)
+Lemma lookup_live : forall s sc,
+  exists e, In e (tbl (fst (lookup s sc))) /\ e_id e = snd (lookup s sc) /\ e_key e = sc.
+Proof.
+  intros. apply (lookup_cases s sc (fun r => exists e, In e (tbl (fst r)) /\ e_id e = snd r /\ e_key e = sc)); simpl.
+  - intros id F. apply find_key_In; auto.
+  - intros _. eexists. split; [apply in_or_app; right; left; reflexivity |]. auto.
+Qed.
+
+(* subscribe, second half *)
+Lemma listens_add_other : forall s c id c' p, c' <> c -> listens (add_to s c id) c' p = listens s c' p.
+Proof.
+  intros. rewrite !listens_memt. simpl. rewrite !memt_add. apply Nat.eqb_neq in H. rewrite H; simpl. rewrite !orb_false_r; auto.
+Qed.
+Lemma listens_add_ge : forall s c id c' p, listens s c' p = true -> listens (add_to s c id) c' p = true.
+Proof.
+  intros s c id c' p. rewrite !listens_memt. simpl. rewrite !memt_add. rewrite !orb_true_iff. tauto.
+Qed.
+Definition key_covers (key : scope) (p : pid) : bool :=
+  match key with SG => false | _ => covers key p end.
+Lemma key_covers_cases : forall key p, key_covers key p = true <-> key = SP (fst p) (snd p) \/ key = SM (fst p).
+Proof.
+  intros [| m | m q] p; simpl.
+  - split; [discriminate | intros [H | H]; discriminate].
+  - rewrite Nat.eqb_eq. split; [intros ->; auto | intros [H | H]; inversion H; auto].
+  - rewrite andb_true_iff, !Nat.eqb_eq. split; [intros [-> ->]; auto | intros [H | H]; inversion H; auto].
+Qed.
+Lemma key_covers_split : forall key p,
+  key_covers key p = scope_eqb (SP (fst p) (snd p)) key || scope_eqb (SM (fst p)) key.
+Proof.
+  intros [| m | m q] p; simpl; auto.
+  - apply Nat.eqb_sym.
+  - rewrite orb_false_r. rewrite (Nat.eqb_sym m), (Nat.eqb_sym q); auto.
+Qed.
+Lemma existsb_key_covers : forall id p t,
+  existsb (fun e => Nat.eqb (e_id e) id && key_covers (e_key e) p) t =
+  existsb (fun e => Nat.eqb (e_id e) id && scope_eqb (SP (fst p) (snd p)) (e_key e)) t
+  || existsb (fun e => Nat.eqb (e_id e) id && scope_eqb (SM (fst p)) (e_key e)) t.
+Proof.
+  induction t as [| e t IH]; [reflexivity |]. cbn [existsb]. rewrite IH, key_covers_split. btauto.
+Qed.
+(* after the add, the connection is a member of every bound set with that identity *)
+Lemma listens_add_self : forall s c id p,
+  listens (add_to s c id) c p =
+  listens s c p || existsb (fun e => Nat.eqb (e_id e) id && key_covers (e_key e) p) (tbl s).
+Proof.
+  intros. rewrite !listens_memt. cbn [add_to set_tbl tbl actv]. rewrite !memt_add, Nat.eqb_refl, existsb_key_covers. btauto.
+Qed.
+Lemma listens_add_live : forall s c id sc p,
+  (exists e, In e (tbl s) /\ e_id e = id /\ e_key e = sc) -> sc <> SG -> covers sc p = true ->
+  listens (add_to s c id) c p = true.
+Proof.
+  intros s c id sc p [e [I [E K]]] N C. rewrite listens_add_self. apply orb_true_iff. right.
+  apply existsb_exists. exists e. split; auto. rewrite E, Nat.eqb_refl, K. simpl. destruct sc; simpl; auto; congruence.
+Qed.
+Lemma listens_add_only : forall s c id sc p,
+  (forall e, In e (tbl s) -> e_id e = id -> e_key e = sc) ->
+  listens (add_to s c id) c p = true -> listens s c p = true \/ covers sc p = true.
+Proof.
+  intros s c id sc p U. rewrite listens_add_self, orb_true_iff. intros [H | H]; auto. right.
+  apply existsb_exists in H. destruct H as [e [I H]]. apply andb_true_iff in H. destruct H as [H1 H2].
+  apply Nat.eqb_eq in H1. rewrite (U e I H1) in H2. destruct sc; simpl in *; auto.
+Qed.
+
+(* one discard of reset_connection (the code: del = false) *)
+Lemma listens_discard_other : forall s c t c' p, c' <> c -> listens (discard_target false s c t) c' p = listens s c' p.
+Proof.
+  intros. rewrite !listens_memt. destruct t as [id |]; simpl.
+  - rewrite !memt_del_other by auto. auto.
+  - rewrite memc_remc_other; auto.
+Qed.
+Lemma listens_discard_le : forall s c t c' p, listens (discard_target false s c t) c' p = true -> listens s c' p = true.
+Proof.
+  intros s c t c' p. rewrite !listens_memt. destruct t as [id |]; simpl; rewrite !orb_true_iff.
+  - intros [[H | H] | H]; auto; apply memt_del_le in H; auto.
+  - intros [H | H]; auto. right. apply memc_In in H. apply In_remc in H. apply memc_In; tauto.
 Qed.
 
 (* deactivation of one scope: what remains for this connection, nothing changes for the others *)
 Lemma listens_unregister_other : forall s c sc c' p, c' <> c -> listens (unregister s c sc) c' p = listens s c' p.
 Proof.
-  intros. unfold listens, unregister. destruct sc; simpl.
-  - rewrite memc_remc_other; auto.
-  - rewrite !mems_filter. unfold unsub_hits; simpl. apply Nat.eqb_neq in H. rewrite H; simpl. rewrite !andb_true_r; auto.
-  - rewrite !mems_filter. unfold unsub_hits; simpl. apply Nat.eqb_neq in H. rewrite H; simpl. rewrite !andb_true_r; auto.
+  intros. rewrite !listens_memt. unfold unregister. apply Nat.eqb_neq in H. destruct sc; simpl.
+  - rewrite memc_remc_other; auto. apply Nat.eqb_neq; auto.
+  - rewrite !memt_unsub. rewrite H; simpl. rewrite !andb_true_r; auto.
+  - rewrite !memt_unsub. rewrite H; simpl. rewrite !andb_true_r; auto.
 Qed.
 Lemma listens_unregister_self : forall s c sc p,
   listens (unregister s c sc) c p =
@@ -127,11 +295,11 @@ Lemma listens_unregister_self : forall s c sc p,
               else listens s c p
   end.
 Proof.
-  intros. unfold listens, unregister. destruct sc as [| m | m q]; simpl.
+  intros. rewrite !listens_memt, !mems_subs. unfold unregister. destruct sc as [| m | m q]; simpl.
   - rewrite memc_remc_self, orb_false_r; auto.
-  - rewrite !mems_filter. unfold unsub_hits; simpl. rewrite Nat.eqb_refl; simpl.
+  - rewrite !memt_unsub. simpl. rewrite Nat.eqb_refl; simpl.
     destruct (Nat.eqb m (fst p)) eqn:E; simpl; rewrite ?andb_false_r, ?andb_true_r; auto.
-  - rewrite !mems_filter. unfold unsub_hits; simpl. rewrite Nat.eqb_refl; simpl.
+  - rewrite !memt_unsub. simpl. rewrite Nat.eqb_refl; simpl.
     destruct (Nat.eqb m (fst p) && Nat.eqb q (snd p)) eqn:E; simpl; rewrite ?andb_false_r, ?andb_true_r; auto.
 Qed.
 Lemma listens_unregister_le : forall s c sc c' p, listens (unregister s c sc) c' p = true -> listens s c' p = true.
@@ -142,17 +310,6 @@ Proof.
     + destruct (Nat.eqb m (fst p)); auto. intros ->; rewrite orb_true_r; auto.
     + destruct (Nat.eqb m (fst p) && Nat.eqb q (snd p)); auto. rewrite <- orb_assoc. intros ->; rewrite orb_true_r; auto.
   - rewrite listens_unregister_other; auto.
-Qed.
-
-Lemma listens_reset_self : forall s c p, listens (reset s c) c p = false.
-Proof.
-  intros. unfold listens, reset; simpl. rewrite !mems_filter; simpl. rewrite Nat.eqb_refl; simpl.
-  rewrite !andb_false_r, memc_remc_self; auto.
-Qed.
-Lemma listens_reset_other : forall s c c' p, c' <> c -> listens (reset s c) c' p = listens s c' p.
-Proof.
-  intros. unfold listens, reset; simpl. rewrite !mems_filter; simpl. apply Nat.eqb_neq in H. rewrite H; simpl.
-  rewrite !andb_true_r, memc_remc_other; auto. apply Nat.eqb_neq; auto.
 Qed.
 
 (* ---- the snapshot list is the set of exported parameters of the scope *)
@@ -223,7 +380,7 @@ Lemma cstep_cases (nd : node) (s : state) (st : tid * conn) (R : state -> Prop) 
   R s ->
   (forall c, fst st = TC c -> c_pc (cth s c) = CStart -> R (set_cpc s c CRecv)) ->
   (forall c rest, fst st = TC c -> c_pc (cth s c) = CRecv -> c_script (cth s c) = RClose :: rest ->
-     R (pop_script (log_add (reset s c) c EClose) c CDone)) ->
+     R (pop_script (log_add s c EClose) c (CDisc (reset_targets s) KClose))) ->
   (forall c r rest, fst st = TC c -> c_pc (cth s c) = CRecv -> c_script (cth s c) = r :: rest -> r <> RClose ->
      R (pop_script (log_add s c (EReq r)) c (CAcq r))) ->
   (forall c r, fst st = TC c -> c_pc (cth s c) = CAcq r -> dlock s = None -> R (handle nd s c r)) ->
@@ -238,6 +395,11 @@ Lemma cstep_cases (nd : node) (s : state) (st : tid * conn) (R : state -> Prop) 
   (forall c sc m i v j todo rest, fst st = TC c -> c_pc (cth s c) = CSendU sc m i v (j :: todo) rest ->
      R (set_cpc (log_add s c (EUpd (m, i) v)) c (CBuild sc m (j :: todo) rest))) ->
   (forall c r, fst st = TC c -> c_pc (cth s c) = CSendR r -> R (set_cpc (log_add s c (ERep r)) c CRecv)) ->
+  (forall c sc id, fst st = TC c -> c_pc (cth s c) = CAdd sc id ->
+     R (enter_groups (add_to s c id) c sc (snapshot_groups nd sc))) ->
+  (forall c t k, fst st = TC c -> c_pc (cth s c) = CDisc [t] k -> R (after_reset (discard_target false s c t) c k)) ->
+  (forall c t t' ts k, fst st = TC c -> c_pc (cth s c) = CDisc (t :: t' :: ts) k ->
+     R (set_cpc (discard_target false s c t) c (CDisc (t' :: ts) k))) ->
   (forall u, fst st = TU u -> u_pc (uth s u) = UStart -> R (next_upd s u)) ->
   (forall u p v rest, fst st = TU u -> u_pc (uth s u) = UAcq -> u_script (uth s u) = (p, v) :: rest ->
      ulock s (fst p) = None -> exported nd p = true ->
@@ -260,9 +422,9 @@ Lemma cstep_cases (nd : node) (s : state) (st : tid * conn) (R : state -> Prop) 
      R (set_upc (log_add s (snd st) (EUpd p v)) u (USend p v all (remc (snd st) pend)))) ->
   R (cstep nd s st).
 Proof.
-  intros H0 H1 H2 H3 H4 A1 A2 H5 H6 H6' H7 H8 H9 H10 H11 H12 H13 H14.
-  destruct st as [[c | u] x]; unfold cstep; simpl in *.
-  - unfold cstep_conn, cenabled.
+  intros H0 H1 H2 H3 H4 A1 A2 H5 H6 H6' H7 B1 B2 B3 H8 H9 H10 H11 H12 H13 H14.
+  destruct st as [[c | u] x]; unfold cstep, cstep_gen; simpl in *.
+  - unfold cstep_conn_gen, cenabled.
     destruct (c_pc (cth s c)) eqn:PC; simpl; auto.
     + destruct (c_script (cth s c)) as [| r rest] eqn:SC; simpl; auto.
       destruct r; try (eapply H3; eauto; discriminate). eapply H2; eauto.
@@ -271,6 +433,7 @@ Proof.
       destruct (ulock s m) eqn:UL; simpl; auto. destruct todo; [eapply A1 | eapply A2]; eauto.
     + destruct todo; auto.
     + destruct todo; [eapply H6 | eapply H6']; eauto.
+    + destruct ts as [| t [| t' ts]]; simpl; auto; try (eapply B2; eauto; fail); try (eapply B3; eauto).
   - unfold cstep_upd, uenabled.
     destruct (u_pc (uth s u)) eqn:PC; simpl; auto.
     + destruct (u_script (uth s u)) as [| [p v] rest] eqn:SC; simpl; auto.
@@ -283,19 +446,21 @@ Qed.
 
 (* the request handlers, run under the dispatcher lock *)
 Lemma handle_cases (nd : node) (s : state) (c : conn) (r : req) (R : state -> Prop) :
-  (r = RIdn -> R (set_cpc (reset s c) c (CSendR RpIdent))) ->
+  (r = RIdn -> R (set_cpc (set_dlock s (Some c)) c (CDisc (reset_targets s) KIdent))) ->
   (forall sc, r = RDeact sc true -> R (set_cpc s c (CSendR (RpErr 0)))) ->
   (forall sc, r = RDeact sc false -> R (set_cpc (unregister s c sc) c (CSendR RpInactive))) ->
   (forall sc, r = RAct sc true -> R (set_cpc s c (CSendR (RpErr 0)))) ->
   (forall sc e, r = RAct sc false -> act_error nd sc = Some e -> R (set_cpc s c (CSendR (RpErr e)))) ->
-  (forall sc, r = RAct sc false -> act_error nd sc = None ->
-     R (enter_groups (set_dlock (register s c sc) (Some c)) c sc (snapshot_groups nd sc))) ->
+  (r = RAct SG false -> R (enter_groups (set_dlock (register_g s c) (Some c)) c SG (snapshot_groups nd SG))) ->
+  (forall sc, r = RAct sc false -> act_error nd sc = None -> sc <> SG ->
+     R (set_cpc (set_dlock (fst (lookup s sc)) (Some c)) c (CAdd sc (snd (lookup s sc))))) ->
   (r = RClose -> R (set_cpc s c (CSendR (RpErr 0)))) ->
   (r = RBogus -> R (set_cpc s c (CSendR (RpErr 0)))) ->
   R (handle nd s c r).
 Proof.
-  intros H1 H2 H3 H4 H5 H6 H8 H9. destruct r as [sc d | sc d | | |]; simpl; auto.
-  - destruct d; [eapply H4; eauto |]. destruct (act_error nd sc) eqn:A; [eapply H5; eauto |]. apply H6; auto.
+  intros H1 H2 H3 H4 H5 H6 H7 H8 H9. destruct r as [sc d | sc d | | |]; simpl; auto.
+  - destruct d; [eapply H4; eauto |]. destruct (act_error nd sc) eqn:A; [eapply H5; eauto |].
+    destruct sc; [apply H6; auto | apply H7; auto; discriminate | apply H7; auto; discriminate].
   - destruct d; [eapply H2 | eapply H3]; eauto.
 Qed.
 
@@ -311,24 +476,26 @@ Proof.
 Qed.
 
 (* ---- frame lemmas for the table operations *)
-Lemma logs_register : forall s c sc, logs (register s c sc) = logs s. Proof. destruct sc; reflexivity. Qed.
-Lemma cth_register : forall s c sc, cth (register s c sc) = cth s. Proof. destruct sc; reflexivity. Qed.
-Lemma uth_register : forall s c sc, uth (register s c sc) = uth s. Proof. destruct sc; reflexivity. Qed.
-Lemma cache_register : forall s c sc, cache (register s c sc) = cache s. Proof. destruct sc; reflexivity. Qed.
-Lemma ulock_register : forall s c sc, ulock (register s c sc) = ulock s. Proof. destruct sc; reflexivity. Qed.
-Lemma bcasts_register : forall s c sc, bcasts (register s c sc) = bcasts s. Proof. destruct sc; reflexivity. Qed.
 Lemma logs_unregister : forall s c sc, logs (unregister s c sc) = logs s. Proof. destruct sc; reflexivity. Qed.
 Lemma cth_unregister : forall s c sc, cth (unregister s c sc) = cth s. Proof. destruct sc; reflexivity. Qed.
 Lemma uth_unregister : forall s c sc, uth (unregister s c sc) = uth s. Proof. destruct sc; reflexivity. Qed.
 Lemma cache_unregister : forall s c sc, cache (unregister s c sc) = cache s. Proof. destruct sc; reflexivity. Qed.
 Lemma ulock_unregister : forall s c sc, ulock (unregister s c sc) = ulock s. Proof. destruct sc; reflexivity. Qed.
 Lemma bcasts_unregister : forall s c sc, bcasts (unregister s c sc) = bcasts s. Proof. destruct sc; reflexivity. Qed.
-
-(* listens only looks at the two tables *)
-Lemma listens_ext : forall s s' c p, actv s' = actv s -> subs s' = subs s -> listens s' c p = listens s c p.
-Proof. intros. unfold listens. rewrite H, H0; reflexivity. Qed.
-Lemma listeners_ext : forall s s' p, actv s' = actv s -> subs s' = subs s -> listeners s' p = listeners s p.
-Proof. intros. unfold listeners. rewrite H, H0; reflexivity. Qed.
+Lemma logs_lookup : forall s sc, logs (fst (lookup s sc)) = logs s. Proof. intros; unfold lookup; destruct (find_key sc (tbl s)); reflexivity. Qed.
+Lemma cth_lookup : forall s sc, cth (fst (lookup s sc)) = cth s. Proof. intros; unfold lookup; destruct (find_key sc (tbl s)); reflexivity. Qed.
+Lemma uth_lookup : forall s sc, uth (fst (lookup s sc)) = uth s. Proof. intros; unfold lookup; destruct (find_key sc (tbl s)); reflexivity. Qed.
+Lemma cache_lookup : forall s sc, cache (fst (lookup s sc)) = cache s. Proof. intros; unfold lookup; destruct (find_key sc (tbl s)); reflexivity. Qed.
+Lemma ulock_lookup : forall s sc, ulock (fst (lookup s sc)) = ulock s. Proof. intros; unfold lookup; destruct (find_key sc (tbl s)); reflexivity. Qed.
+Lemma bcasts_lookup : forall s sc, bcasts (fst (lookup s sc)) = bcasts s. Proof. intros; unfold lookup; destruct (find_key sc (tbl s)); reflexivity. Qed.
+Lemma actv_lookup : forall s sc, actv (fst (lookup s sc)) = actv s. Proof. intros; unfold lookup; destruct (find_key sc (tbl s)); reflexivity. Qed.
+Lemma logs_discard : forall s c t, logs (discard_target false s c t) = logs s. Proof. destruct t; reflexivity. Qed.
+Lemma cth_discard : forall s c t, cth (discard_target false s c t) = cth s. Proof. destruct t; reflexivity. Qed.
+Lemma uth_discard : forall s c t, uth (discard_target false s c t) = uth s. Proof. destruct t; reflexivity. Qed.
+Lemma cache_discard : forall s c t, cache (discard_target false s c t) = cache s. Proof. destruct t; reflexivity. Qed.
+Lemma ulock_discard : forall s c t, ulock (discard_target false s c t) = ulock s. Proof. destruct t; reflexivity. Qed.
+Lemma bcasts_discard : forall s c t, bcasts (discard_target false s c t) = bcasts s. Proof. destruct t; reflexivity. Qed.
+Lemma dlock_discard : forall s c t, dlock (discard_target false s c t) = dlock s. Proof. destruct t; reflexivity. Qed.
 
 Lemma logs_next_upd : forall s u, logs (next_upd s u) = logs s. Proof. intros; unfold next_upd; destruct (u_script (uth s u)); reflexivity. Qed.
 Lemma cth_next_upd : forall s u, cth (next_upd s u) = cth s. Proof. intros; unfold next_upd; destruct (u_script (uth s u)); reflexivity. Qed.
@@ -336,7 +503,8 @@ Lemma cache_next_upd : forall s u, cache (next_upd s u) = cache s. Proof. intros
 Lemma ulock_next_upd : forall s u, ulock (next_upd s u) = ulock s. Proof. intros; unfold next_upd; destruct (u_script (uth s u)); reflexivity. Qed.
 Lemma dlock_next_upd : forall s u, dlock (next_upd s u) = dlock s. Proof. intros; unfold next_upd; destruct (u_script (uth s u)); reflexivity. Qed.
 Lemma actv_next_upd : forall s u, actv (next_upd s u) = actv s. Proof. intros; unfold next_upd; destruct (u_script (uth s u)); reflexivity. Qed.
-Lemma subs_next_upd : forall s u, subs (next_upd s u) = subs s. Proof. intros; unfold next_upd; destruct (u_script (uth s u)); reflexivity. Qed.
+Lemma tbl_next_upd : forall s u, tbl (next_upd s u) = tbl s. Proof. intros; unfold next_upd; destruct (u_script (uth s u)); reflexivity. Qed.
+Lemma nsets_next_upd : forall s u, nsets (next_upd s u) = nsets s. Proof. intros; unfold next_upd; destruct (u_script (uth s u)); reflexivity. Qed.
 Lemma bcasts_next_upd : forall s u, bcasts (next_upd s u) = bcasts s. Proof. intros; unfold next_upd; destruct (u_script (uth s u)); reflexivity. Qed.
 Lemma uth_next_upd_other : forall s u u', u' <> u -> uth (next_upd s u) u' = uth s u'.
 Proof. intros; unfold next_upd; destruct (u_script (uth s u)); simpl; apply upd_other; auto. Qed.
@@ -345,7 +513,7 @@ Lemma uth_next_upd_self : forall s u,
   u_script (uth (next_upd s u) u) = u_script (uth s u) /\ (u_pc (uth (next_upd s u) u) = UDone \/ u_pc (uth (next_upd s u) u) = UAcq).
 Proof. intros; unfold next_upd; destruct (u_script (uth s u)) eqn:E; simpl; rewrite upd_same; simpl; auto. Qed.
 Lemma listens_next_upd : forall s u c p, listens (next_upd s u) c p = listens s c p.
-Proof. intros; apply listens_ext; [apply actv_next_upd | apply subs_next_upd]. Qed.
+Proof. intros; apply listens_ext; [apply actv_next_upd | apply tbl_next_upd]. Qed.
 
 (* ---- enter_groups: either the reply (snapshot finished, dispatcher lock released) or the next module lock *)
 Lemma enter_groups_cases (s : state) (c : conn) (sc : scope) (groups : list (nat * list nat)) (R : state -> Prop) :
@@ -358,7 +526,8 @@ Lemma uth_enter : forall s c sc g, uth (enter_groups s c sc g) = uth s. Proof. d
 Lemma cache_enter : forall s c sc g, cache (enter_groups s c sc g) = cache s. Proof. destruct g; reflexivity. Qed.
 Lemma ulock_enter : forall s c sc g, ulock (enter_groups s c sc g) = ulock s. Proof. destruct g; reflexivity. Qed.
 Lemma actv_enter : forall s c sc g, actv (enter_groups s c sc g) = actv s. Proof. destruct g; reflexivity. Qed.
-Lemma subs_enter : forall s c sc g, subs (enter_groups s c sc g) = subs s. Proof. destruct g; reflexivity. Qed.
+Lemma tbl_enter : forall s c sc g, tbl (enter_groups s c sc g) = tbl s. Proof. destruct g; reflexivity. Qed.
+Lemma nsets_enter : forall s c sc g, nsets (enter_groups s c sc g) = nsets s. Proof. destruct g; reflexivity. Qed.
 Lemma bcasts_enter : forall s c sc g, bcasts (enter_groups s c sc g) = bcasts s. Proof. destruct g; reflexivity. Qed.
 Lemma cth_enter_other : forall s c sc g c', c' <> c -> cth (enter_groups s c sc g) c' = cth s c'.
 Proof. intros. destruct g; simpl; apply upd_other; auto. Qed.
@@ -368,15 +537,34 @@ Lemma cth_enter_self : forall s c sc g,
    (g <> [] /\ c_pc (cth (enter_groups s c sc g) c) = CAcqU sc g)).
 Proof. intros. destruct g; simpl; rewrite upd_same; simpl; split; auto. right; split; auto; discriminate. Qed.
 Lemma listens_enter : forall s c sc g c' p, listens (enter_groups s c sc g) c' p = listens s c' p.
-Proof. intros; apply listens_ext; [apply actv_enter | apply subs_enter]. Qed.
+Proof. intros; apply listens_ext; [apply actv_enter | apply tbl_enter]. Qed.
 
-Ltac unf := unfold pop_script, set_cpc, set_upc, log_add, release, reset in *; simpl in *;
+(* ---- after_reset: the reply of the identification request (dispatcher lock released) or the end of the thread *)
+Lemma logs_after : forall s c k, logs (after_reset s c k) = logs s. Proof. destruct k; reflexivity. Qed.
+Lemma uth_after : forall s c k, uth (after_reset s c k) = uth s. Proof. destruct k; reflexivity. Qed.
+Lemma cache_after : forall s c k, cache (after_reset s c k) = cache s. Proof. destruct k; reflexivity. Qed.
+Lemma ulock_after : forall s c k, ulock (after_reset s c k) = ulock s. Proof. destruct k; reflexivity. Qed.
+Lemma actv_after : forall s c k, actv (after_reset s c k) = actv s. Proof. destruct k; reflexivity. Qed.
+Lemma tbl_after : forall s c k, tbl (after_reset s c k) = tbl s. Proof. destruct k; reflexivity. Qed.
+Lemma nsets_after : forall s c k, nsets (after_reset s c k) = nsets s. Proof. destruct k; reflexivity. Qed.
+Lemma bcasts_after : forall s c k, bcasts (after_reset s c k) = bcasts s. Proof. destruct k; reflexivity. Qed.
+Lemma cth_after_other : forall s c k c', c' <> c -> cth (after_reset s c k) c' = cth s c'.
+Proof. intros. destruct k; simpl; apply upd_other; auto. Qed.
+Lemma cth_after_self : forall s c k,
+  c_script (cth (after_reset s c k) c) = c_script (cth s c) /\
+  c_pc (cth (after_reset s c k) c) = match k with KIdent => CSendR RpIdent | KClose => CDone end.
+Proof. intros. destruct k; simpl; rewrite upd_same; simpl; split; auto. Qed.
+Lemma listens_after : forall s c k c' p, listens (after_reset s c k) c' p = listens s c' p.
+Proof. intros; apply listens_ext; [apply actv_after | apply tbl_after]. Qed.
+
+Ltac unf := unfold pop_script, set_cpc, set_upc, log_add, release in *; simpl in *;
   rewrite ?logs_next_upd, ?cth_next_upd, ?cache_next_upd, ?ulock_next_upd, ?dlock_next_upd, ?actv_next_upd,
-    ?subs_next_upd, ?bcasts_next_upd, ?listens_next_upd, ?logs_enter, ?uth_enter, ?cache_enter, ?ulock_enter,
-    ?actv_enter, ?subs_enter, ?bcasts_enter, ?listens_enter in *; simpl in *;
-  rewrite ?logs_register, ?cth_register, ?uth_register, ?cache_register, ?ulock_register, ?bcasts_register,
-    ?logs_unregister, ?cth_unregister, ?uth_unregister, ?cache_unregister, ?ulock_unregister, ?bcasts_unregister in *;
+    ?tbl_next_upd, ?nsets_next_upd, ?bcasts_next_upd, ?listens_next_upd, ?logs_enter, ?uth_enter, ?cache_enter, ?ulock_enter,
+    ?actv_enter, ?tbl_enter, ?nsets_enter, ?bcasts_enter, ?listens_enter,
+    ?logs_after, ?uth_after, ?cache_after, ?ulock_after, ?actv_after, ?tbl_after, ?nsets_after, ?bcasts_after, ?listens_after in *;
+  simpl in *;
+  rewrite ?logs_unregister, ?cth_unregister, ?uth_unregister, ?cache_unregister, ?ulock_unregister, ?bcasts_unregister,
+    ?logs_lookup, ?cth_lookup, ?uth_lookup, ?cache_lookup, ?ulock_lookup, ?bcasts_lookup, ?actv_lookup,
+    ?logs_discard, ?cth_discard, ?uth_discard, ?cache_discard, ?ulock_discard, ?bcasts_discard, ?dlock_discard in *;
   simpl in *.
 Ltac split_c c0 c := destruct (Nat.eq_dec c0 c) as [-> | ?N]; [rewrite ?upd_same in * | rewrite ?upd_other in * by auto]; simpl in *.
-
-
